@@ -98,6 +98,18 @@ class Engine:
             m = self.solver.model()
         if extra:
             self.solver.pop()
+        if r == z3.unknown:
+            # retry on a fresh solver with a longer timeout and other seeds before giving up
+            for attempt in (1, 2, 3):
+                s2 = z3.Solver()
+                s2.set("timeout", QUERY_TIMEOUT_MS * (2 ** attempt))
+                s2.set("random_seed", attempt)
+                s2.add(*self.solver.assertions())
+                s2.add(*extra)
+                r = s2.check()
+                if r != z3.unknown:
+                    m = s2.model() if r == z3.sat else None
+                    break
         self.st += time.time() - t0
         if r == z3.unknown:
             raise Unsupported("solver returned unknown: %s" % self.solver.reason_unknown())
